@@ -33,6 +33,8 @@ impl TraitCodegen<'_> {
         fn_input_mode: &FnInputMode<'_>,
     ) -> syn::Result<TokenStream> {
         let span = trait_ident.span();
+        #[cfg(entrait_verif)]
+        crate::verif::point("trait_codegen::gen_trait_def", trait_fns.len());
 
         let opt_unimock_attr = match self.opts.default_option(self.opts.unimock, false) {
             SpanOpt(true, span) => Some(attributes::ExportGatedAttr {
